@@ -45,16 +45,18 @@ impl TypeParameters {
         if self.unused.is_empty() {
             return None;
         }
-        let params = if self.unused.len() == 1 {
-            let param = self
-                .unused
-                .iter()
-                .next()
-                .expect("Checked for exactly one unused param");
+        // Keep the declaration order of the type parameters, so that the marker does not depend on
+        // the (arbitrary) ids of the concrete types the parameters happen to be instantiated with.
+        let unused: Vec<&TypeParameter> = self
+            .params
+            .iter()
+            .filter(|param| self.unused.contains(param))
+            .collect();
+        let params = if unused.len() == 1 {
+            let param = unused[0];
             quote! { #param }
         } else {
-            let params = self.unused.iter();
-            quote! { ( #( #params ), * ) }
+            quote! { ( #( #unused ), * ) }
         };
         Some(syn::parse_quote! {::core::marker::PhantomData<#params> })
     }
